@@ -7,6 +7,7 @@ import (
 	"errors"
 	"fmt"
 	"io"
+	"strings"
 	"testing"
 	"time"
 
@@ -168,7 +169,14 @@ func drawPolicy(t *kit.Tape, c *simu.Cfg) string {
 	c.SpeedSeed = uint64(t.Draw(1 << 16))
 	cm := []int64{4, 1, 40, 400, 4000}[t.Draw(5)] // consumer speed
 	c.Means = append(c.Means, simrt.Mean{Match: "consumer", Mean: cm})
-	return fmt.Sprintf("speeds=%v/%d consumer=%d", speedSets[set], c.SpeedSeed, cm)
+	pol := fmt.Sprintf("speeds=%v/%d consumer=%d", speedSets[set], c.SpeedSeed, cm)
+	if cm >= 400 {
+		pol += " [stalled-consumer]"
+	}
+	if set >= 2 {
+		pol += " [stalled-pipeline-goroutines]"
+	}
+	return pol
 }
 
 func newReader(t *kit.Tape, data []byte, seed uint64) *simReader {
@@ -305,6 +313,16 @@ func symptom(res *scanRes) (string, string) {
 }
 
 func addSim(o *kit.Outcome, res *scanRes, workload uint64, nontrivial bool) {
+	// injected perturbations of this execution, counted as fault kinds that fired
+	if strings.Contains(res.policy, "[stalled-consumer]") {
+		o.Fault("stalled-consumer")
+	}
+	if strings.Contains(res.policy, "[stalled-pipeline-goroutines]") {
+		o.Fault("stalled-pipeline-goroutines")
+	}
+	if res.reader != nil && res.reader.mode != 0 && len(res.reader.log) > 0 {
+		o.Fault("short-reads")
+	}
 	if len(o.Violations) == 0 && len(res.sim.Trace) > 0 {
 		// the oracle runs right after this call: the trace kept is that of the first violating execution
 		o.Trace = res.sim.Trace
